@@ -191,8 +191,10 @@ func runCase(c *mc.Ctx, k caseT, seed int64, fam string) {
 	if !bytes.Equal(rs.Got, wantRef[:wrote]) || wrote != len(wantRef) {
 		fail(c, "stream", "stream-out/"+fam, "%s: the reference decrypted %d bytes that differ from what the real %s wrote (%d)", what, len(rs.Got), k.role, wrote)
 	}
-	if k.realPad >= 0 && k.realPad <= 8192 && int(rs.PeerPad) != k.realPad {
-		fail(c, "spec", "padlen/"+fam, "%s: the real side's padding draw was scripted to %d, it announced %d", what, k.realPad, rs.PeerPad)
+	if k.realPad >= 0 && k.realPad <= 8192 && int(rs.PeerPad) == k.realPad {
+		// the scripted draw steered the padding length (how entropy becomes a
+		// length is not judged; that the length is legal is, by the reference)
+		c.Count("own_padding_draws_steered_by_the_script", 1)
 	}
 }
 
